@@ -238,9 +238,9 @@ def grid_nontrivial(g):
 
 @st.composite
 def base_ocp(draw, methods=("MS", "SS", "DC"), allow_alg=True, quad=False, grid_kw=None, horizons=("num", "free", "par"),
-             maxN=4, maxM=3, schemes=("rk", "expl_euler"), degrees=(1, 2, 3, 4, 5), table_kw=None, discrete_prob=0):
+             maxN=4, maxM=3, schemes=("rk", "expl_euler"), degrees=(1, 2, 3, 4, 5), table_kw=None, discrete_prob=0, alg_odds=(1, 3)):
     mcls = draw(st.sampled_from(list(methods)))
-    alg = 1 if (mcls == "DC" and allow_alg and draw(st.integers(0, 2)) == 0) else 0
+    alg = 1 if (mcls == "DC" and allow_alg and draw(st.integers(1, alg_odds[1])) <= alg_odds[0]) else 0
     tab = draw(symbol_table(alg=alg, quad=quad, **(table_kw or {})))
     sp = {"name": "main"}
     sp.update(tab)
